@@ -365,8 +365,24 @@ def _discharge1(pc, goal, want_smt2=False, all_backends=False, scale=1):
     flat = []
     for t in pc:
         flat.extend(_goal_conjuncts(t))
-    if z3.is_true(goal) or all_backends or os.environ.get('PYVC_NO_ATTEMPTS'):
-        return _discharge2(flat, goal, want_smt2, all_backends, scale)
+    if all_backends and not z3.is_true(goal):
+        # thorough tier: the verdict is found as in the quick tier (same strategies, same budgets: a verdict must
+        # not depend on the tier); a proof is then cross-checked: the full problem goes to the external back
+        # ends as well, and a counter-model from one of them is a disagreement (their time-outs are not)
+        v = _discharge1(pc, goal, want_smt2, False, scale)
+        if v.status == 'unsat':
+            s = z3.Solver()
+            for t in flat:
+                s.add(t)
+            s.add(z3.Not(goal))
+            smt2 = s.to_smt2()
+            v2 = _external(smt2, flat + [goal])
+            if v2 is not None and v2.status == 'sat':
+                return Verdict('unknown', 'disagreement', v.time, smt2=smt2,
+                               reason='%s unsat / %s sat' % (v.backend, v2.backend))
+        return v
+    if z3.is_true(goal) or os.environ.get('PYVC_NO_ATTEMPTS'):
+        return _discharge2(flat, goal, want_smt2, False, scale)
     qf = [t for t in flat if not _has_quantifier(t)]
     if _uses_strings(flat + [goal]):
         # what z3 decides about the full problem it usually decides at once
